@@ -131,6 +131,13 @@ func frame6(srcMAC []byte, src, dst netip.Addr, payload []byte) []byte {
 
 var allNodes = netip.MustParseAddr("ff02::1")
 
+// poison overwrites a frame buffer the way the next received frame would.
+func poison(b []byte) {
+	for i := range b {
+		b[i] = 0xee
+	}
+}
+
 // ---------------------------------------------------------------------------------------------
 // nd.ra – function mode
 
@@ -220,11 +227,16 @@ func evalRa(c *core.Ctx, line string) *core.Case {
 			for i := range toks {
 				t := &toks[i]
 				icmp_spoofer.VerifSetRepeat(t.rep)
-				fr, err := s.Parse(frame6(t.eth, netip.AddrFrom16(*(*[16]byte)(t.ip)), allNodes, t.payload))
+				// a receive loop reads every frame into the same buffer: the frame is processed in place and
+				// the buffer is overwritten as soon as ProcessPacket has returned; the router table is read
+				// only afterwards, so anything retained that aliases the packet shows up as garbage
+				buf := frame6(t.eth, netip.AddrFrom16(*(*[16]byte)(t.ip)), allNodes, t.payload)
+				fr, err := s.Parse(buf)
 				t.h = fr.Host != nil
 				if err == nil {
 					err = h.ProcessPacket(fr)
 				}
+				poison(buf)
 				if err == nil {
 					res += "1"
 				} else {
@@ -456,11 +468,13 @@ func runTrace(scn string) (evs []event, nas []naFrame, ops []*apiOp, hostMAC []b
 			o.callIdx, o.callAt = l.add(fmt.Sprintf("Rc%d:%s", k, tok.String()))
 			var err error
 			ndpgen.Quietly(func() {
-				fr, e := s.Parse(frame6(tok.eth, routerIP(rk), allNodes, ra))
+				buf := frame6(tok.eth, routerIP(rk), allNodes, ra)
+				fr, e := s.Parse(buf)
 				if e == nil {
 					e = h.ProcessPacket(fr)
 				}
 				err = e
+				poison(buf) // the receive buffer is reused
 			})
 			o.res = "1"
 			if err != nil {
@@ -727,7 +741,7 @@ func genScenario(c *core.Ctx) string {
 
 // Gen is the C14 correspondence run.
 func Gen(c *core.Ctx) {
-	c.Res.Rule = "nd.ra: sequences of 1–3 router advertisements (random fixed part, option lists from the independent builder: prefix, MTU, RDNSS, DNSSL, route information, source/target LLA, unknown types; mutated option areas incl. zero-length and truncated options; throttle open and closed; known and unknown senders; repeated senders) processed by a fresh handler – learned table vs Lean model vs independent Go decoder.  nd.trace: real-time scenarios (StartHunt/StopHunt over up to 3 MACs with IPv4, global, link-local and address-less targets, Close, router advertisements, pauses up to 2.3 s, 3.3 s tail) run in parallel, one handler each; the ordered log must be accepted by the Lean hunt machine; the oracle checks every NA (hunted, router learned, fields), the API results, list size and the cycle period"
+	c.Res.Rule = "nd.ra: sequences of 1–3 router advertisements (random fixed part, option lists from the independent builder: prefix, MTU, RDNSS, DNSSL, route information, source/target LLA, unknown types; mutated option areas incl. zero-length and truncated options; throttle open and closed; known and unknown senders; repeated senders) processed in place by a fresh handler, the frame buffer overwritten after every ProcessPacket as a receive loop does, the table read afterwards – learned table vs Lean model vs independent Go decoder.  nd.trace: real-time scenarios (StartHunt/StopHunt over up to 3 MACs with IPv4, global, link-local and address-less targets, Close, router advertisements, pauses up to 2.3 s, 3.3 s tail) run in parallel, one handler each; the ordered log must be accepted by the Lean hunt machine; the oracle checks every NA (hunted, router learned, fields), the API results, list size and the cycle period"
 	for _, l := range c.CorpusLines() {
 		add(c, "corpus", l)
 	}
